@@ -1,6 +1,7 @@
 import EdpVerif.Drv.Common
 import EdpVerif.Impl.Procs
 import EdpVerif.Spec.Procs
+import EdpVerif.Generated.MiscMailbox
 /-! Driver requests of property C18 (local processes).
 
 * `c18run cap tok…`  — replay of an executed history through the small-step model (trace inclusion): the tokens are the
@@ -246,7 +247,9 @@ end C18
 open C18 in
 def handleC18 : List String → Option String
   | "c18run" :: cap :: toks => some <| C18.runE do
-      let cap ← C18.nat cap
+      -- `src`: the capacity of the source (`DEFAULT_MAILBOX_CAPACITY`) plus the one message the process task holds between
+      -- `recv()` and the handler call (the model's `recv` step takes and handles in one step)
+      let cap ← if cap == "src" then pure (Edp.Gen.MAILBOX_DEFAULT_CAPACITY + 1) else C18.nat cap
       C18.replay cap toks
   | "c18reg" :: ops => some <| C18.runE (C18.regRun ops)
   | ["c18gs", body, res, live] => some <| C18.runE do
